@@ -79,6 +79,20 @@ def run_case(c):
         r["read"] = r["out"] if r["ok"] else {"tracks": [], "bpm": 0}
         r["out"] = 0
         R.append(r)
+        # the same program with its rests held as empty NoteContainers instead of None
+        if any(e["rest"] for t in p["tracks"] for b in t["bars"] for e in b["entries"]):
+            from . import program as _pg
+            _pg.REST_AS_EMPTY_CONTAINER[0] = True
+            try:
+                comp2 = mk_composition(p)
+            finally:
+                _pg.REST_AS_EMPTY_CONTAINER[0] = False
+            if built_ok(p, comp2):
+                r = call("roundtrip", {"rests": "empty containers"}, lambda: read_proj(*roundtrip(comp2, p["bpm"])))
+                r["prog"] = p
+                r["read"] = r["out"] if r["ok"] else {"tracks": [], "bpm": 0}
+                r["out"] = 0
+                R.append(r)
     elif k == "bpm":
         for bpm in c["bpms"]:
             R.append(call("bpm", {"bpm": bpm}, lambda: roundtrip(simple_comp(), bpm)[1], integer))
